@@ -98,7 +98,15 @@ def main():
         sys.exit(2)
     if a[0] == "--setup":
         os.makedirs(os.path.join(ROOT, ".build", "tools"), exist_ok=True)
-        for gname in CFG["groups"]:
+        claimed = [l.strip() for l in open(os.path.join(ROOT, "tools", "claimed.txt")) if l.strip() and not l.startswith("#")]
+        todo = []
+        for f in claimed:
+            c = json.load(open(os.path.join(ROOT, "tools", "groups.d", f + ".json")))
+            for chk in c.get("checks", {}).values():
+                for g in [chk["group"]] + chk.get("extra_groups", []):
+                    if g not in todo:
+                        todo.append(g)
+        for gname in todo:
             build_group(gname)
         print("setup ok")
         return
